@@ -8,8 +8,12 @@ package webrtc
 // role / "receive a remote offer" (discarded and rolled-back descriptions count: a version once
 // handed out is never reused), followed by a concurrent part: K
 // goroutines (2..8) each issuing a list of CreateOffer / CreateAnswer calls, released together,
-// optionally with one more goroutine adding transceivers meanwhile.  The concurrent part runs
-// in stable (offers) or in have-remote-offer (offers and answers mixed).
+// optionally with one more goroutine adding transceivers meanwhile and with 1..3 mutator
+// goroutines (RTPTransceiver.Stop, Sender.ReplaceTrack, SetCodecPreferences,
+// AddTransceiverFromKind, RemoveTrack on drawn targets).  A third of the programs also carry a
+// TrackLocal of the harness whose StreamID() callback stops an earlier transceiver while
+// CreateOffer is generating (the recompute path of CreateOffer, reached deterministically).  The
+// concurrent part runs in stable (offers) or in have-remote-offer (offers and answers mixed).
 //
 // Oracle over every description P generated (and, separately, every one Q generated), read
 // from the o= line: all session ids equal; versions pairwise distinct; whenever call X returned
@@ -37,6 +41,28 @@ type vfC11Case struct {
 	HRO  bool    `json:"hro"`  // run the concurrent part in have-remote-offer (else in whatever state the prefix left)
 	Conc [][]int `json:"conc"` // per goroutine: 0 = CreateOffer, 1 = CreateAnswer
 	Adds int     `json:"adds"` // transceivers added by an extra goroutine during the concurrent part
+	// Hook > 0: P starts with Hook receive-only "victim" transceivers followed by a send-only
+	// transceiver whose TrackLocal runs a one-shot callback from StreamID(), i.e. while CreateOffer
+	// is writing that track's media section; the armed callback stops the next victim (a mutation
+	// that does not take pc.mu and lands in the middle of offer generation).
+	Hook    int     `json:"hook,omitempty"`
+	HookCon bool    `json:"hook_conc,omitempty"` // arm the callback once more just before the concurrent part
+	Mut     [][]int `json:"mut,omitempty"`       // concurrent mutator goroutines: action = v%5, target index = v/5
+}
+
+// vfC11HookTrack is a TrackLocal of the harness: StreamID() (read during SDP generation) runs a
+// one-shot callback first.
+type vfC11HookTrack struct {
+	*TrackLocalStaticSample
+	hook atomic.Value // func()
+}
+
+func (t *vfC11HookTrack) StreamID() string {
+	if f, ok := t.hook.Swap((func())(nil)).(func()); ok && f != nil {
+		f()
+	}
+
+	return t.TrackLocalStaticSample.StreamID()
 }
 
 const (
@@ -51,6 +77,8 @@ const (
 	vfC11SeqRollbackL          // P.SetLocalDescription(rollback)  (legal from have-local-offer)
 	vfC11SeqRollbackR          // P.SetRemoteDescription(rollback) (legal from have-remote-offer)
 	vfC11SeqAddDC              // P.CreateDataChannel
+	vfC11SeqAddSendTr          // P.AddTransceiverFromKind(sendrecv) (gives P a sender with a track)
+	vfC11SeqHookOffer          // arm the StreamID() callback (stop the next victim), then P.CreateOffer
 	vfC11SeqN
 )
 
@@ -104,6 +132,34 @@ func vfC11Run(v *vfT, c vfC11Case) {
 		_, _ = P.CreateDataChannel("init", nil)
 	}
 	_, _ = Q.CreateDataChannel("init", nil)
+	var victims []*RTPTransceiver
+	var hookTrack *vfC11HookTrack
+	hooksRun := 0
+	if c.Hook > 0 {
+		for k := 0; k < c.Hook && k < 5; k++ {
+			if tr, err := P.AddTransceiverFromKind(RTPCodecTypeVideo, RTPTransceiverInit{Direction: RTPTransceiverDirectionRecvonly}); err == nil {
+				victims = append(victims, tr)
+			}
+		}
+		if static, err := NewTrackLocalStaticSample(RTPCodecCapability{MimeType: MimeTypeVP8}, "vfhook", "vfhook"); err == nil {
+			ht := &vfC11HookTrack{TrackLocalStaticSample: static}
+			// AddTransceiverFromTrack, not AddTrack: AddTrack would reuse the first victim
+			if _, err = P.AddTransceiverFromTrack(ht, RTPTransceiverInit{Direction: RTPTransceiverDirectionSendonly}); err == nil {
+				hookTrack = ht
+			}
+		}
+	}
+	armHook := func() {
+		if hookTrack == nil || len(victims) == 0 {
+			return
+		}
+		victim := victims[0]
+		victims = victims[1:]
+		hookTrack.hook.Store(func() {
+			hooksRun++
+			_ = victim.Stop()
+		})
+	}
 
 	var clock atomic.Int64
 	var mu sync.Mutex
@@ -214,6 +270,17 @@ func vfC11Run(v *vfT, c vfC11Case) {
 					firstRollbackAt = clock.Add(1)
 				}
 			}
+		case vfC11SeqAddSendTr:
+			if added < 6 {
+				_, _ = P.AddTransceiverFromKind(RTPCodecTypeAudio, RTPTransceiverInit{Direction: RTPTransceiverDirectionSendrecv})
+				added++
+			}
+		case vfC11SeqHookOffer:
+			armHook()
+			if d, ok := gen(P, "P", -1, false); ok {
+				dd := d
+				lastOfferP = &dd
+			}
 		case vfC11SeqAddDC:
 			if added < 6 {
 				_, _ = P.CreateDataChannel(fmt.Sprintf("dc%d", added), nil)
@@ -270,6 +337,60 @@ func vfC11Run(v *vfT, c vfC11Case) {
 				}
 			}()
 		}
+		// mutators: public calls that change transceivers without going through pc.mu (or that
+		// do), racing with the generating callers
+		trs := P.GetTransceivers()
+		senders := P.GetSenders()
+		for _, acts := range c.Mut {
+			wg.Add(1)
+			go func(acts []int) {
+				defer wg.Done()
+				<-release
+				nAdd := 0
+				for _, a := range acts {
+					if a < 0 {
+						a = -a
+					}
+					idx := a / 5
+					switch a % 5 {
+					case 0:
+						if len(trs) > 0 {
+							_ = trs[idx%len(trs)].Stop()
+						}
+					case 1:
+						if len(senders) > 0 {
+							snd := senders[idx%len(senders)]
+							if idx%2 == 0 {
+								_ = snd.ReplaceTrack(nil)
+							} else if tr, ok := snd.Track().(interface{ Codec() RTPCodecCapability }); ok && tr != nil {
+								if nt, err := NewTrackLocalStaticSample(RTPCodecCapability{MimeType: tr.Codec().MimeType}, "vfrepl", "vfrepl"); err == nil {
+									_ = snd.ReplaceTrack(nt)
+								}
+							}
+						}
+					case 2:
+						if len(trs) > 0 {
+							t := trs[idx%len(trs)]
+							if codecs := P.api.mediaEngine.getCodecsByKind(t.Kind()); len(codecs) > 0 {
+								_ = t.SetCodecPreferences(codecs[:1+idx%len(codecs)])
+							}
+						}
+					case 3:
+						if nAdd < 2 {
+							nAdd++
+							_, _ = P.AddTransceiverFromKind(RTPCodecTypeVideo, RTPTransceiverInit{Direction: RTPTransceiverDirectionRecvonly})
+						}
+					case 4:
+						if len(senders) > 0 {
+							_ = P.RemoveTrack(senders[idx%len(senders)])
+						}
+					}
+				}
+			}(acts)
+		}
+		if c.HookCon {
+			armHook()
+		}
 		close(release)
 		wg.Wait()
 	}
@@ -319,6 +440,12 @@ func vfC11Run(v *vfT, c vfC11Case) {
 	}
 	if nAnswers > 0 {
 		v.Label("concurrent-answers-generated")
+	}
+	if hooksRun > 0 {
+		v.Label("mutation-during-offer-generation(hook-ran)")
+	}
+	if len(c.Mut) > 0 {
+		v.Label("has-concurrent-mutators")
 	}
 	if nRollback > 0 {
 		v.Label("has-rollback")
@@ -385,6 +512,24 @@ func TestVerif_C11_Programs(t *testing.T) {
 		k := rapid.IntRange(2, 8).Draw(v.R, "k")
 		for g := 0; g < k; g++ {
 			c.Conc = append(c.Conc, rapid.SliceOfN(rapid.IntRange(0, 1), 1, 6).Draw(v.R, "calls"))
+		}
+		if rapid.IntRange(0, 2).Draw(v.R, "withHook") == 0 {
+			c.Hook = rapid.IntRange(1, 4).Draw(v.R, "hook")
+			c.HookCon = rapid.Bool().Draw(v.R, "hookConc")
+			// make sure the armed offers are there: plain offer, armed offer, maybe more
+			pre := []int{vfC11SeqOffer}
+			for k := rapid.IntRange(1, 3).Draw(v.R, "hookOffers"); k > 0; k-- {
+				pre = append(pre, vfC11SeqHookOffer)
+				if rapid.Bool().Draw(v.R, "plainBetween") {
+					pre = append(pre, vfC11SeqOffer)
+				}
+			}
+			c.Seq = append(pre, c.Seq...)
+		}
+		if rapid.Bool().Draw(v.R, "withMutators") {
+			for g := rapid.IntRange(1, 3).Draw(v.R, "mutators"); g > 0; g-- {
+				c.Mut = append(c.Mut, rapid.SliceOfN(rapid.IntRange(0, 39), 1, 8).Draw(v.R, "mut"))
+			}
 		}
 		if rapid.Bool().Draw(v.R, "withAdds") {
 			c.Adds = rapid.IntRange(1, 4).Draw(v.R, "adds")
